@@ -593,6 +593,9 @@ func tryReplay(o *Obligation, repo, scratch string) (string, bool) {
 		}
 		switch g.typ.Underlying().(type) {
 		case *types.Basic:
+			if strings.Contains(types.TypeString(g.typ, qual), ".") {
+				continue // a named type of another package (time.Duration): not an option
+			}
 			gsets = append(gsets, fmt.Sprintf("\t{ old := %s; %s = %s; defer func() { %s = old }() }", g.global.Name(), g.global.Name(), mc.goValue(g.typ, v, 0), g.global.Name()))
 		}
 	}
@@ -695,7 +698,7 @@ func grepLines(s, pat string) string {
 
 func replayReproduced(o *Obligation, res string) bool {
 	switch o.Kind {
-	case "post":
+	case "post", "inv-step", "inv-init":
 		return strings.Contains(res, "=false //") || strings.Contains(res, "outcome=panic")
 	case "frame-heap", "frame-global":
 		return strings.Contains(res, "outcome=modified")
@@ -867,7 +870,7 @@ func corpusTestFor(o *Obligation, fn *ssa.Function, gsets []string, own bool) st
 		resNames = append(resNames, fmt.Sprintf("out%d", i))
 	}
 	var oldNames []string
-	evalPost := o.Kind == "post" && c.fc != nil && own
+	evalPost := (o.Kind == "post" || o.Kind == "inv-step" || o.Kind == "inv-init") && c.fc != nil && own
 	if evalPost {
 		for i, od := range c.fc.Olds {
 			if usesGhostIntrinsic(od.Expr) {
@@ -997,7 +1000,7 @@ func replayVia(o *Obligation, repo, scratch string) (string, bool) {
 		if v == nil {
 			continue
 		}
-		if _, ok := g.typ.Underlying().(*types.Basic); ok {
+		if _, ok := g.typ.Underlying().(*types.Basic); ok && !strings.Contains(types.TypeString(g.typ, types.RelativeTo(pkg)), ".") {
 			gsets = append(gsets, fmt.Sprintf("\t{ old := %s; %s = %s; defer func() { %s = old }() }", g.global.Name(), g.global.Name(), mc.goValue(g.typ, v, 0), g.global.Name()))
 		}
 	}
